@@ -100,7 +100,9 @@ def _rows_concrete(n, picks, channel, ldir_i, blank):
     else:
         params['sigfile'] = 'q.gs'
         expect_paths = None
-    expect_labels = [LABELS[p] for p in picks] if channel != 2 else [f'stored-{p}' for p in picks]
+    # stored IDs are used verbatim, also when they look like paths or file names (or are integers)
+    stored = [[f'runs/2024/{NAMES[p]}', f'stored-{p}.fasta.gz', 7000 + p][p % 3] for p in picks]
+    expect_labels = [LABELS[p] for p in picks] if channel != 2 else list(stored)
 
     class SigTags(list):
         """stands in for the SignatureList the real function returns: a sequence with the k-mer parameters attached"""
@@ -114,7 +116,7 @@ def _rows_concrete(n, picks, channel, ldir_i, blank):
         return out
 
     def load_signatures(path, **kw):
-        return FakeSigs([f'stored-{p}' for p in picks])
+        return FakeSigs(list(stored))
 
     def jaccarddist_matrix(queries, refs, **kw):
         rec['queries'] = list(queries)
